@@ -80,6 +80,22 @@ ASSUMPTIONS["C13"] = [
 
 
 
+# ---- C12 (family import) ---------------------------------------------------------------------
+FAMILY["C12"] = "fam_import"
+REQUIRED_THEOREMS["C12"] = ["C12_nodes", "C12_edges", "C12_attrs", "C12_renumber", "C12_reject_dup",
+                            "C12_reject_unknown", "C12_reject_self", "C12_reject_missing",
+                            "C12_geff_import", "C12_geff_reject", "C12_counterexample_unfixed"]
+TRUSTED_BASE["C12"] = [
+    "pandas dtype decision is_integer_dtype(id column) enters the model as a per-table flag read from pandas by the harness",
+    "pandas CSV parsing (source of a CSV case = the frame pd.read_csv yields; floats checked within 1 ulp of what was written), numpy coercion of homogeneous columns, NaN/None carrying, ast.literal_eval of '[...]' strings: opaque carriers, values are tokens (floats by repr, integral floats = ints)",
+    "zarr/GEFF I/O (geff write_arrays / read_to_memory, geff.construct), GEFF missing masks; ValueError text -> error kind by regex in the harness",
+    "spatial feature keys (pos, ellipse_axis_radii) read from the live feature table and sent on every line"]
+ASSUMPTIONS["C12"] = ["ids are never -1 / '' / '-1' (documented no-parent sentinels) and never missing",
+                      "C12_attrs: NameMapOK (no key twice; a stacked column is used in one list only, once, and is not itself the name of a key), non-empty header, rectangular rows",
+                      "not modelled: _preprocess_name_map (legacy z/y/x keys, None/[] entries), node_features, track_id/lineage_id validation, segmentation; a second key mapped to the id column only for integer ids",
+                      "theorems are about the model of the pipeline as repaired (fix commits D9, D9b, D9c); C12_counterexample_unfixed refutes the unrepaired id remapping",
+                      "cycles and backward links in a table are not among the property's malformations and are imported"]
+
 # ---- session family: texts ---------------------------------------------------------------------
 _SESSION_TB = [
     "networkx DiGraph: insertion-ordered adjacency, degree, has_edge, remove_node drops incident edges (modelled as such)",
@@ -133,6 +149,9 @@ LEVEL_TEXT.update({
     "C19": "Uniqueness across frames and per-frame partition preservation are Lean theorems about the fold with the carried running maximum, for arrays of any size; relabel-by-track is proved against the inductive relation 'same unbranched segment' (the executable component computation is proved sound and complete); brute-force oracles on the real return values, flat arrays compared with the model.",
     "C13": "Pixel-exact characterisation of relabel_segmentation (masks read from the original, written into zeros) for arrays and assignments of any size incl. reused labels, permutations, unlisted labels and id 0 with the joint graph shift; the in-place variant is proved not to satisfy it; direct calls and the public tracks_from_df path checked against a brute-force oracle and the model.",
 })
+LEVEL_TEXT["C12"] = ("Node/edge/attribute faithfulness, first-occurrence renumbering and the four rejection classes are Lean theorems about a table-level "
+                    "model of the import pipeline (load_source, _ensure_integer_ids, rename, stack, validate, construct) for tables of any size; random DataFrames, "
+                    "CSV files and GEFF stores incl. every malformation class go through the real importers and the model.")
 LEVEL_NOTE.update({p: "; ".join(TRUSTED_BASE_COMMON[2:] + TRUSTED_BASE.get(p, []))[:900] for p in FAMILY})
 
 REQUIRED_THEOREMS["C06"] = ["C06_fresh_tid", "C06_fresh_lin", "C06_fresh_nodes", "C06_has_track", "C06_neighbors",
